@@ -90,6 +90,26 @@ Proof.
 Qed.
 Print Assumptions C01_class_structure_back.
 
+(* ... and under the tuple strategy: unstructure_attrs_astuple emits every attribute's handled value in attribute order, and
+   structure_attrs_fromtuple -- with the keyword-only attributes passed by keyword, as the current source does -- gives
+   back the same instance from ANY iterable payload that yields that tuple. *)
+Theorem C01_class_tuple_roundtrip :
+  forall (V : Type) (K : N -> V -> result V) (fs : list (field V)),
+    NoDup (map f_alias fs) -> NoDup (map f_name fs) ->
+    (forall f, In f fs -> f_init f = true) -> (forall f, In f fs -> f_conv f = false) ->
+    forall (i : inst V), map fst i = map f_name fs ->
+    forall (d0 : V) (hs_u hs_s : N -> V -> result V) (hu : N -> V -> V),
+      (forall f, In f fs -> hs_u (f_name f) (aval V d0 i f) = Ok (hu (f_name f) (aval V d0 i f))) ->
+      (forall f, In f fs -> hs_s (f_name f) (hu (f_name f) (aval V d0 i f)) = Ok (aval V d0 i f)) ->
+      un_interp_tuple V hs_u fs i = Ok (T V fs i d0 hu) /\
+      forall o : pobj V, o_iter o = Ok (T V fs i d0 hu) -> tpl_interp_tuple V K hs_s src_tuple_by_kw fs o = Ok i.
+Proof.
+  intros V K fs Ha Hn Hi Hc i Hk d0 hs_u hs_s hu Hu Hs. split.
+  - now apply un_interp_tuple_all.
+  - intros o Ho. rewrite src_tuple_passes_kw_only_by_keyword. eapply class_rt_tuple; eassumption.
+Qed.
+Print Assumptions C01_class_tuple_roundtrip.
+
 (* non-vacuity: a recursive class with a list of itself, a mapping keyed by an enum, an Optional, a set
    and a heterogeneous tuple; the value is a value of the type, unstructures, and comes back through
    all four structuring configurations *)
